@@ -4,13 +4,37 @@ independent oracle `Expect`, run_check) and coq/theories/Props/C24.v.  K1/K2 cor
 real operators (publish, share, ref_count, auto_connect, publish_value, replay, multicast) are
 driven with generated call trees; Coq evaluates Subjects/Connectable.v on the same trees
 (vm_compute) and compares the complete observable logs (calls, deliveries, source subscribe /
-unsubscribe events in one total order)."""
+unsubscribe events in one total order).
+ORACLE-ONLY family replay_clock (harness/replay_clock.py, shared with C22): ops.replay(buffer_size=, window=,
+scheduler=S1) and ops.multicast(subject=ReplaySubject(..., S1)), with connect(), ref_count() (share-like) and
+auto_connect(1), whose subscribers hand subscribe() no scheduler, S1, a second virtual-time scheduler whose
+clock is AHEAD of or BEHIND S1's, or a real-time scheduler (ConnectableObservable / ref_count forward it to the
+subject): every subscriber receives the values retained on S1's clock, then what the shared subject receives
+from its subscription onwards, whatever scheduler it or an earlier subscriber passed.  It runs just before
+chk.finish (conn.py is not edited)."""
+import json
+
 import conn
+import replay_clock
+
+PID = "C24"
 
 
 def run(chk):
+    orig = chk.finish
+
+    def finish(*a, **kw):
+        chk.finish = orig
+        replay_clock.run_family(chk, PID)
+        kw["trusted_extra"] = list(kw.get("trusted_extra", ())) + [replay_clock.TRUSTED]
+        kw["assumptions"] = list(kw.get("assumptions", ())) + [replay_clock.ASSUME]
+        return orig(*a, **kw)
+    chk.finish = finish
     return conn.run_check(chk)
 
 
 def replay(chk, path):
+    d = json.load(open(path))
+    if d.get("family") == "replay_clock":
+        return replay_clock.replay(chk, path, d, PID)
     return conn.replay_check(chk, path)
